@@ -166,3 +166,9 @@ MUTANTS += [
 MUTANTS += [
     # ---- fatal failures of the code under test (cannot be recovered like a panic)
 ]
+MUTANTS += [
+    dict(name='c19-lazy-table-published-early', props=['C19'],
+         desc='IndexToPath reads its lookup table through a lazily built copy whose ready flag and pointer are published BEFORE it is filled (only a first-use interleaving sees the half-built table; warm code is unaffected)',
+         edits=[('bmtree/index.go', 'p2 = (p2 >> 1) | idxToPath[mask&15][index]', 'p2 = (p2 >> 1) | idxTable()[mask&15][index]'),
+                ('bmtree/index.go', '', '\nvar (\n\tlazyIdx      [][]uint64\n\tlazyIdxReady bool\n)\n\nfunc idxTable() [][]uint64 {\n\tif !lazyIdxReady {\n\t\tlazyIdxReady = true\n\t\tt := make([][]uint64, len(idxToPath))\n\t\tlazyIdx = t\n\t\tfor i := range idxToPath {\n\t\t\tt[i] = append([]uint64(nil), idxToPath[i]...)\n\t\t}\n\t}\n\treturn lazyIdx\n}\n')]),
+]
